@@ -111,7 +111,7 @@ def doTable (j : J) : Except String J := do
     | some t' => pure t'
     | none => bad "IndexError") ([] : Table Nat)
   let frames ← (← j.array "frames").mapM fun fj => do pure ((← phdrOf (← fj.get "phdr")), (← fj.nat "port"))
-  let lookups := frames.map fun (p, port) => J.ofOptNat ((v.entryForPacket tbl p port).map (·.data))
+  let lookups := (v.lookupSeq tbl frames).map fun r => J.ofOptNat (r.map (·.data))
   let spec := frames.map fun (p, port) => J.arr (flows.map fun f => jb (Spec.matchHdr f.mtch (Spec.headers p port)))
   pure (J.mk [("order", J.ofNats (tbl.map (·.data))), ("eff", J.ofNats (tbl.map v.effectivePriority)),
               ("exact", J.arr (es.map fun e => jb (!v.isWildcarded e.mtch))), ("lookups", J.arr lookups), ("spec", J.arr spec), ("rank", J.ofNats (flows.map Spec.rankSig))])
